@@ -63,6 +63,10 @@ def analyse(seed):
       for t in range(len(g['cost'])):
         if (g['group'] == 2 and t < npre) or (g['group'] == 1 and t >= npre):
           g['cost'][t] = 0.0
+  if kind == 'fixed' and random.Random(seed * 61 + 3).random() < 0.35:
+    kind = 'control-credit'                  # a credit note booked on a control geo during the test: the non-incremental cost is negative, not zero
+    g0 = next(g for g in spec['geos'] if g['group'] == 1)
+    g0['cost'][npre] = -1000.0
   if kind == 'negative':                     # a refund: negative incremental cost in the fixed scenario
     for g in spec['geos']:
       g['cost'] = [-c for c in g['cost']]
